@@ -134,6 +134,46 @@ def shard(job, k):
     return [{"episodes": eps[i::k]} for i in range(k) if eps[i::k]]
 
 
+def run_driver(binary, job, jp, tp, timeout):
+    """run the driver over a shard; an episode that hangs (watchdog of the `rel` driver: exit code 3, the recorded finding
+    C20/force-bytes-unbounded-loop is an endless allocating loop) is dropped and the run continues after it; the
+    episodes recorded so far are kept"""
+    episodes = list(job["episodes"])
+    stats = {"episodes": [], "events": 0, "hung_episodes": 0}
+    open(tp, "w").close()
+    part = tp + ".part"
+    while episodes:
+        with open(jp, "w") as f:
+            json.dump(dict(job, episodes=episodes), f)
+        p = core.run_bin(binary, [jp, part], timeout=timeout, ok_codes=(0, 3, -9, -6, 134, 137))
+        last = p.stdout.strip().splitlines()[-1] if p.stdout.strip() else ""
+        if p.returncode == 0:
+            st = json.loads(last)
+            stats["episodes"] += st.get("episodes", [])
+            stats["events"] += st.get("events", 0)
+            with open(tp, "a") as out:
+                out.write(open(part).read())
+            break
+        # hung (exit 3) or killed by the address-space limit: keep the complete episodes, skip the offender
+        lines = core.read_lines(part)
+        starts = [i for i, ln in enumerate(lines) if '"ev":"Init"' in ln[:40]]
+        try:
+            k = json.loads(last)["hung"] if p.returncode == 3 else max(0, len(starts) - 1)
+            done = json.loads(last).get("episodes", []) if p.returncode == 3 else []
+        except Exception:
+            k, done = max(0, len(starts) - 1), []
+        keep = lines[:starts[k]] if k < len(starts) else lines
+        with open(tp, "a") as out:
+            if keep:
+                out.write("\n".join(keep) + "\n")
+        stats["episodes"] += done
+        stats["events"] += len(keep)
+        stats["hung_episodes"] += 1
+        core.log(f"[driver] episode {episodes[k].get('gid')} did not finish (dropped: unbounded loop / allocation)")
+        episodes = episodes[k + 1:]
+    return stats
+
+
 def drive_and_validate(prop, tier, seed, job, res, nshards=8, cfg_view=None, binary="rel", module="Trace_EngineRel",
                        timeout=1800):
     """Run the driver over the job in shards, validate every shard's trace with TLC.
@@ -149,8 +189,7 @@ def drive_and_validate(prop, tier, seed, job, res, nshards=8, cfg_view=None, bin
         tp = os.path.join(wd, f"trace{ix}.ndjson")
         with open(jp, "w") as f:
             json.dump(shards[ix], f)
-        p = core.run_bin(binary, [jp, tp], timeout=timeout)
-        stats = json.loads(p.stdout.strip().splitlines()[-1])
+        stats = run_driver(binary, shards[ix], jp, tp, timeout)
         tot = core.validate_file(module, tp, prop, tier, seed, cfg=cfg, timeout=timeout, tagbase=f"{prop}{ix}")
         return stats, tot, tp
 
@@ -159,6 +198,8 @@ def drive_and_validate(prop, tier, seed, job, res, nshards=8, cfg_view=None, bin
     for ix, (stats, tot, tp) in enumerate(outs):
         res.add_validation(tot)
         res.cov["evaluations"] += stats.get("events", 0)
+        if stats.get("hung_episodes"):
+            res.cov["episodes_dropped_unbounded_loop"] = res.cov.get("episodes_dropped_unbounded_loop", 0) + stats["hung_episodes"]
         for es in stats.get("episodes", []):
             res.cov.setdefault("episodes_compiled", 0)
             res.cov.setdefault("episodes_skipped", 0)
